@@ -325,6 +325,11 @@ def run_roundtrip(job, acc):
         if (_idx // job["of"]) % 4 == 0:
             acc.states += 1
             check_roundtrip(acc, desc, order="stale")
+        if (_idx // job["of"]) % 8 == 2:
+            # names as synthesis tools emit them: leading underscore, capitals, digits
+            acc.states += 1
+            und = {x[0]: nm for x, nm in zip(desc["nodes"], ("_00_", "_w", "N9", "__", "n_1_", "_1x", "q_", "_Z"))}
+            check_roundtrip(acc, space.rename(desc, und))
         if (_idx // job["of"]) % 8 == 1:
             # very long net names (flattened hierarchical names): longer than any line width a writer may assume
             acc.states += 1
